@@ -174,6 +174,8 @@ impl<C: CrcCalculator> Encapsulator<C> {
     }
 
     pub fn disable_re_use_label(&mut self) {
+        // the last label is not tracked while re-use is disabled: forget it instead of keeping a stale one
+        self.last_label = None;
         self.re_use_activated = false;
         self.re_max_consecutive = 0;
         self.re_current_consecutive = 0;
